@@ -104,6 +104,11 @@ func RunC06(casesPath, tracePath, statsPath string, seed int64, thorough bool) e
 		cases = append(cases, cs)
 	}
 	f.Close()
+	// equal-power ties between accepted spellings of one number and between different numbers
+	for _, pr := range [][2]string{{"0a", "0A"}, {"0x0a", "0a"}, {"0X0A", "0x0a"}, {"a", "0a"}, {"abcdef", "ABCDEF"}, {"01", "02"}} {
+		cases = append(cases, []c06Report{{Rep: "r1", Raw: pr[0], Pow: 2}, {Rep: "r2", Raw: pr[1], Pow: 2}})
+		cases = append(cases, []c06Report{{Rep: "r1", Raw: pr[0], Pow: 1}, {Rep: "r2", Raw: pr[1], Pow: 2}, {Rep: "r3", Raw: pr[0], Pow: 1}})
+	}
 	nEnum := len(cases)
 	// seeded large inputs: many reporters, huge powers (median), long values, equal numeric values spelled differently
 	nBig := 12
@@ -194,7 +199,7 @@ func RunC06(casesPath, tracePath, statsPath string, seed int64, thorough bool) e
 						r := cs[src]
 						reports[i] = oracletypes.MicroReport{Reporter: r.Rep, Power: r.Pow, QueryId: []byte("q"), Value: r.Raw, BlockNumber: uint64(10 + src),
 							AggregateMethod: map[string]string{"Median": "weighted-median", "Mode": "weighted-mode"}[method]}
-						v, _ := new(big.Int).SetString(r.Raw, 16)
+						v, _ := new(big.Int).SetString(stripHexPrefix(r.Raw), 16)
 						rsj[i] = Rec{"rep": r.Rep, "raw": r.Raw, "val": NumBig(v), "pow": NumU64(r.Pow)}
 					}
 					var agg *oracletypes.Aggregate
@@ -209,7 +214,7 @@ func RunC06(casesPath, tracePath, statsPath string, seed int64, thorough bool) e
 					})
 					rec := Rec{"ev": method, "case": fmt.Sprintf("%s-%d", method, ci), "rs": rsj, "ok": res.Ok && agg != nil}
 					if res.Ok && agg != nil {
-						v, okp := new(big.Int).SetString(agg.AggregateValue, 16)
+						v, okp := new(big.Int).SetString(stripHexPrefix(agg.AggregateValue), 16)
 						if !okp {
 							v = big.NewInt(0)
 						}
@@ -293,7 +298,7 @@ func hasHalf(cs []c06Report) bool {
 	}
 	var l []vp
 	for _, r := range cs {
-		v, _ := new(big.Int).SetString(r.Raw, 16)
+		v, _ := new(big.Int).SetString(stripHexPrefix(r.Raw), 16)
 		l = append(l, vp{v, r.Pow})
 		tot.Add(tot, new(big.Int).SetUint64(r.Pow))
 	}
@@ -309,4 +314,11 @@ func hasHalf(cs []c06Report) bool {
 		}
 	}
 	return false
+}
+
+func stripHexPrefix(s string) string {
+	if len(s) >= 2 && s[0] == '0' && (s[1] == 'x' || s[1] == 'X') {
+		return s[2:]
+	}
+	return s
 }
